@@ -1494,6 +1494,10 @@ class Interp:
         last = name.split("::")[-1]
         if re.match(r"core::num::<impl \w+>::(from|to)_(be|le|ne)_bytes$", name):
             return self.slice_call(name, args, fargs, fr, t)
+        m = re.match(r"common_traits::(?:Integer|Number|UnsignedInt|SignedInt)::(leading_zeros|trailing_zeros|count_ones|count_zeros|leading_ones|trailing_ones|ilog2|wrapping_add|wrapping_sub|wrapping_mul|wrapping_shl|wrapping_shr|min|max)$", name)
+        if m and args and isinstance(args[0], AI) and args[0].ty in TY:
+            # the dependency's integer traits forward to the inherent methods of the primitive types
+            name = "core::num::<impl %s>::%s" % (args[0].ty, m.group(1))
         m = re.match(r"core::num::<impl (\w+)>::(\w+)$", name)
         if m:
             ty, fn = m.group(1), m.group(2)
@@ -1555,6 +1559,14 @@ class Interp:
                          "leading_ones": w - ((~u) & ((1 << w) - 1)).bit_length(),
                          "trailing_ones": ((~u & (u + 1)).bit_length() - 1)}[fn]
                     return AI("u32", r, r)
+                if fn == "trailing_zeros" and x.aff is not None:
+                    # x = a*y + b (mod 2^w): below the lowest set bit of a the bits of x are those of b
+                    a_, b_ = x.aff
+                    ta = ((a_ & -a_).bit_length() - 1) if a_ else w
+                    bm = b_ % (1 << w)
+                    tb = ((bm & -bm).bit_length() - 1) if bm else w
+                    if tb < min(ta, w):
+                        return AI("u32", tb, tb)
                 return AI("u32", 0, w)
             if fn == "div_ceil":
                 y = args[1]
